@@ -1,11 +1,11 @@
-\* thorough: 2 objects, 2 contents, 4 server versions (new sessions, stale caches), 2 kills, 4 client runs
+\* seeded fault, TLC must reject
 SPECIFICATION Spec
 CONSTANTS
   NObj = 2
   Vals = {1, 2}
-  MaxVer = 4
+  MaxVer = 3
   MaxKills = 2
   MaxRuns = 4
-  Variant = "code"
+  Variant = "mark_keeps_lm"
 INVARIANTS TypeOK C24_ReportedMeansEqual NoTornReported MarkedWhileDirty
 CHECK_DEADLOCK FALSE
